@@ -23,7 +23,7 @@ _pbase.threading = types.SimpleNamespace(RLock=e3.CoopRLock, Lock=e3.CoopRLock)
 
 ID = "C20"
 LEVEL = "model_checking"
-RULE = ("schedules: for each of 12 scenarios (first parse of classes with pending forward references - module level and "
+RULE = ("schedules: for each of 13 scenarios (first parse of classes with pending forward references - module level and "
         "function-local; first parse of mutually recursive classes from both ends; conversions racing a registration in "
         "the shared converter registry; first calls of a decorated function with forward-referenced types; concurrent "
         "decoration of one function) every interleaving of 2 threads with at most 1 preemption (quick); of 2 threads with at "
@@ -165,6 +165,16 @@ def other_converter(transformer, data, t):
 type_transform(0, Sub)
 '''
 
+SRC_GEN_WHOLE = '''
+from utmc.ns import *
+@utype.parse
+def g(n: int) -> 'Iterator[Item]':
+    for i in range(n):
+        yield dict(v=str(i))
+class Item(Schema):
+    v: int
+'''
+
 A_IN = {"v": "1", "bs": [{"w": "2", "a": {"v": 3}}], "ob": {"w": 4}}
 B_IN = {"w": "5", "a": {"v": 6, "bs": [{"w": 7}]}, "more": {"k": {"w": 8}}}
 B_LOCAL_IN = {"w": "5", "a": {"v": 6, "bs": [{"w": 7}]}}
@@ -200,6 +210,9 @@ SCENARIOS = {
     # two classes spell the same reference identically: typing hands both the same ForwardRef object, each has its own parser
     "shared-alias-two-classes": (SRC_SHARED_ALIAS, ["A.__from__({'lines': [{'v': '1'}]}).lines[0].v", "B.__from__({'lines': [{'v': 2}], 'first': {'v': '3'}}).first.v",
                                                     "A.__from__({'lines': [{'v': '1'}]}).lines[0].v"], "B.__from__({'lines': [{'v': 4}]}).lines[0].v"),
+    # the whole return annotation of a generator is one pending reference: its yield type exists only after resolution
+    "generator-whole-annotation-ref": (SRC_GEN_WHOLE, ["[type(x).__name__ for x in g(2)]", "[x.v for x in g('3')]", "[type(x).__name__ for x in g(2)]"],
+                                       "[type(x).__name__ for x in g(1)]"),
     "registry-race-warm": (SRC_REG_WARM, ["type_transform(1, Sub)", "type_transform(2, Sub)", "utype.register_transformer(Other)(other_converter) and None"],
                            "type_transform(2, Sub)"),
     "registry-race": (SRC_REG, ["type_transform(1, Sub)", "type_transform(2, Sub)", "utype.register_transformer(Sub)(new_converter) and None"],
